@@ -392,6 +392,8 @@ theorem mergedRoot_eq_iff (A B x y : Nat) :
 def MergeOk (n : Nat) (m : Int × Int) : Prop :=
   -1 ≤ m.1 ∧ m.1 < (n : Int) ∧ -1 ≤ m.2 ∧ m.2 < (n : Int) ∧ ¬ (m.1 = -1 ∧ m.2 = -1)
 
+instance (n : Nat) (m : Int × Int) : Decidable (MergeOk n m) := by unfold MergeOk; infer_instance
+
 /-- the pair of trees a merge unites: a static endpoint (-1) is replaced by the other endpoint -/
 def edgeOf (m : Int × Int) : Nat × Nat :=
   ((if m.1 = -1 then m.2 else m.1).toNat, (if m.2 = -1 then m.1 else m.2).toNat)
@@ -878,5 +880,89 @@ theorem runOps_spec (n : Nat) (ops : List DsuOp) (hok : OpsOk n ops) :
     · intro u v
       rw [opsEdges_append]; simp only [opsEdges, List.append_nil]
       rw [hc.rootOf_eq hI, hc.rootOf_eq hI]; exact hconn u v
+
+
+/-! ### what `mj_dsuAssign` computes, in terms of the merged edges -/
+
+structure AssignSpec (E : List (Nat × Nat)) (n : Nat) (out : Assign) : Prop where
+  isz : out.island.size = n
+  psz : out.parent.size = n
+  /-- -1 exactly for untouched trees -/
+  neg : ∀ t (h : t < out.island.size), out.island[t] = -1 ↔ ¬ Touched E t
+  /-- ids of touched trees lie in [0, nisland) -/
+  rng : ∀ t (h : t < out.island.size), Touched E t → 0 ≤ out.island[t] ∧ out.island[t] < (out.nisland : Int)
+  /-- same id iff connected -/
+  eq_iff : ∀ a b (ha : a < out.island.size) (hb : b < out.island.size), Touched E a → Touched E b →
+    (out.island[a] = out.island[b] ↔ Conn E a b)
+  /-- ids ascend with the smallest tree of the island -/
+  lt_iff : ∀ a b (ha : a < out.island.size) (hb : b < out.island.size) (ma mb : Nat),
+    Touched E a → Touched E b → IsMinOf E a ma → IsMinOf E b mb → (out.island[a] < out.island[b] ↔ ma < mb)
+  /-- every id below nisland is used -/
+  surj : ∀ c, c < out.nisland → ∃ t, ∃ h : t < out.island.size, out.island[t] = (c : Int)
+  /-- parent is fully compressed onto the minimum of each class -/
+  compressed : ∀ t (h : t < out.parent.size) (m : Nat), Touched E t → IsMinOf E t m → out.parent[t] = (m : Int)
+
+theorem assign_facts {p : Array Int} {E : List (Nat × Nat)} {n : Nat} (hs : p.size = n) (hI : Inv p)
+    (hact : ∀ u, par p u ≠ -1 ↔ Touched E u) (hconn : ∀ u v, rootOf p u = rootOf p v ↔ Conn E u v)
+    {dofnum : Array Int} {out : Assign} (ho : AssignInv p dofnum n out) : AssignSpec E n out := by
+  have hisz := ho.isz
+  have hpsz : out.parent.size = n := by rw [ho.compr.1]; exact hs
+  have hroot : ∀ t, Touched E t → par p (rootOf p t) = rootOf p t :=
+    fun t ht => par_rootOf hI ((hact t).mpr ht)
+  have hrank : ∀ a b, Touched E a → Touched E b →
+      (rootsBelow p (rootOf p a) < rootsBelow p (rootOf p b) ↔ rootOf p a < rootOf p b) := by
+    intro a b ha hb
+    constructor
+    · intro h
+      by_cases hlt : rootOf p a < rootOf p b
+      · exact hlt
+      · have := rootsBelow_mono p (show rootOf p b ≤ rootOf p a by omega); omega
+    · intro h; exact rootsBelow_lt p h (hroot a ha)
+  have hrank_eq : ∀ a b, Touched E a → Touched E b →
+      (rootsBelow p (rootOf p a) = rootsBelow p (rootOf p b) ↔ rootOf p a = rootOf p b) := by
+    intro a b ha hb
+    constructor
+    · intro h
+      rcases Nat.lt_trichotomy (rootOf p a) (rootOf p b) with h1 | h1 | h1
+      · have := (hrank a b ha hb).mpr h1; omega
+      · exact h1
+      · have := (hrank b a hb ha).mpr h1; omega
+    · intro h; rw [h]
+  refine ⟨hisz, hpsz, ?_, ?_, ?_, ?_, ?_, ?_⟩
+  · intro t h
+    by_cases ht : par p t = -1
+    · rw [ho.isl_neg t h ht]
+      simp only [true_iff]
+      intro htt; exact (hact t).mpr htt ht
+    · rw [ho.isl_pos t h ht]
+      constructor
+      · intro h'; omega
+      · intro h'; exact absurd ((hact t).mp ht) h'
+  · intro t h ht
+    rw [ho.isl_pos t h ((hact t).mpr ht)]
+    refine ⟨by omega, ?_⟩
+    rw [ho.nisl]
+    have hlt : rootOf p t < n := by
+      have := rootOf_lt_size (hI.lt_size ((hact t).mpr ht)); omega
+    have := rootsBelow_lt p hlt (hroot t ht)
+    omega
+  · intro a b ha hb hta htb
+    rw [ho.isl_pos a ha ((hact a).mpr hta), ho.isl_pos b hb ((hact b).mpr htb), ← hconn a b,
+      ← hrank_eq a b hta htb]
+    omega
+  · intro a b ha hb ma mb hta htb hma hmb
+    rw [ho.isl_pos a ha ((hact a).mpr hta), ho.isl_pos b hb ((hact b).mpr htb)]
+    rw [isMinOf_unique hma (rootOf_isMin hI hconn a), isMinOf_unique hmb (rootOf_isMin hI hconn b),
+      ← hrank a b hta htb]
+    omega
+  · intro c hc
+    rw [ho.nisl] at hc
+    obtain ⟨r, hr, hself, hrc⟩ := rootsBelow_surj p n c hc
+    have hra : par p r ≠ -1 := by omega
+    refine ⟨r, by omega, ?_⟩
+    rw [ho.isl_pos r (by omega) hra, rootOf_self hself, hrc]
+  · intro t h m ht hm
+    rw [← par_eq h, ho.done t (by omega) ((hact t).mpr ht),
+      isMinOf_unique hm (rootOf_isMin hI hconn t)]
 
 end MjProof.Island
